@@ -1,3 +1,4 @@
+import SpoxModel.Model.CallGraph
 /-!
 # Subgraph callbacks (C19)
 
@@ -311,10 +312,19 @@ def construct (spec : CtorSpec) (env : Env) (cbs : Callbacks) (w : World) :
 /-- Operations on a finished node / on a graph containing it. -/
 inductive Step
   | build              -- `spox.build` / `Graph.to_onnx` / `to_onnx_model`
-  | infer              -- type inference re-run (`infer_output_types`, `Node.inference`)
+  | infer              -- type inference re-run (`infer_output_types`, `Node.inference`, `validate_types`)
   | valueProp          -- `propagate_values`
-  | inspect            -- reading `_arguments`, `requested_results`, repr
+  | inspect            -- reading `_arguments`, `requested_results`, repr, ==, hash
+  | copy               -- `copy.copy` / `copy.deepcopy` / pickling hooks
+  | graphMethod        -- `with_name` / `with_doc` / `with_arguments` / `with_opset` (dataclasses.replace)
+  | inline             -- `inline(build(…))` of a model containing the node
+  | varMethod          -- any method of a result `Var`
 deriving DecidableEq, Repr, Inhabited
+
+/-- the kind under which the step's entry functions are listed in the generated call graph -/
+def Step.kind : Step → String
+  | .build => "build" | .infer => "infer" | .valueProp => "valueProp" | .inspect => "inspect"
+  | .copy => "copy" | .graphMethod => "graphMethod" | .inline => "inline" | .varMethod => "varMethod"
 
 /-- Re-run every stored constructor of a node (what `Graph._reconstruct` would do). -/
 def reinvoke (node : Node) (w : World) : World :=
@@ -322,14 +332,14 @@ def reinvoke (node : Node) (w : World) : World :=
     { events := ⟨p.2.cb, freshIds w.fresh p.2.args.length, []⟩ :: w.events,
       fresh := w.fresh + p.2.args.length }) w
 
-/-- A later step reaches a callback only through a call site *other than `subgraph` itself* — the
-    list is extracted from the source (`Generated/CallbackSites.lean`); it is empty on a tree where
-    callbacks are only ever called by `subgraph`. -/
-def postStep (extraSites : List String) (node : Node) (_s : Step) (w : World) : World :=
-  if extraSites.isEmpty then w else reinvoke node w
+/-- A later step runs code reachable, in the call graph *extracted from the source*, from the step's
+    entry functions; it re-invokes the stored callbacks iff a function that invokes a stored callback
+    is reachable from them. -/
+def postStep (g : CallGraph.Graph) (node : Node) (s : Step) (w : World) : World :=
+  if g.reachesSink (g.entriesOf s.kind) then reinvoke node w else w
 
-def runSteps (extraSites : List String) (node : Node) : List Step → World → World
+def runSteps (g : CallGraph.Graph) (node : Node) : List Step → World → World
   | [], w => w
-  | s :: rest, w => runSteps extraSites node rest (postStep extraSites node s w)
+  | s :: rest, w => runSteps g node rest (postStep g node s w)
 
 end Subgraph
